@@ -168,3 +168,169 @@ def run_k2(res, sets, featuresets, tier, modes=(0,), want_tags=None, drv=None):
 def enum_source(enums, en):
     mod, c = enums[en]
     return c.source
+
+
+def real_attempts(r):
+    """Split the recorded events of a traced run into attempts [(start, [(off,size),...])], up to and
+    including the call that first returned None."""
+    out = []
+    raw = r['raw']
+    nones = 0
+    for part in raw.split(';'):
+        m = re.match(r'(.*)\[(.*)\]$', part)
+        if not m:
+            continue
+        for ev in m[2].split():
+            if ev[0] in 'nt':
+                out.append((int(ev[1:]), []))
+            elif ev[0] == 'r' and out:
+                o, sz, ln = ev[1:].split('.')
+                out[-1][1].append((int(o), int(sz)))
+        if part.startswith('F:'):
+            break
+    return out
+
+
+def parse_model_trace(line):
+    """'T id same | start: o sz o sz | ...' -> (same, [(start, [(o,sz)...])])"""
+    m = re.match(r'T (\S+) (same|OPTDIFF[^|]*) \| ?(.*)$', line)
+    parts = []
+    if m[3].strip():
+        for p in m[3].split(' | '):
+            st, _, rest = p.partition(':')
+            ns = [int(x) for x in rest.split()]
+            parts.append((int(st), list(zip(ns[0::2], ns[1::2]))))
+    return m[1], m[2] == 'same', parts
+
+
+def run_k3(res, sets, featuresets, tier, modes=(0, 1), drv=None):
+    """Read traces: compiled lexers (hook H3) vs attempt_opt 8. Returns list of mismatches and stats."""
+    drv = drv or build.extraction_build()
+    rng = random.Random(seed() + 17)
+    mism = []; total = 0; nreads = 0; maxratio = 0.0
+    for label, h, enums in sets:
+        exe0, caps0 = h[featuresets[0]]
+        allp = []; jobs = []
+        for en in sorted(caps0):
+            c = caps0[en]
+            if not usable(c) or None in engine.behaviour_codes(c):
+                continue
+            ps = make_probes(c, rng, tier)
+            lines = engine.problem_header(c, with_dfa=False)
+            for i, p in enumerate(ps):
+                for mode in modes:
+                    pid = '%s.%d.%d' % (en, i, mode)
+                    allp.append((pid, en, mode | 2, p))
+                    lines.append('T %s %d %d %s' % (pid, mode, len(p), ' '.join(map(str, p))))
+            jobs.append(lines)
+        model = {}
+        for ln in engine.run_modeldrv(drv, jobs):
+            if ln.startswith('T '):
+                pid, same, parts = parse_model_trace(ln)
+                model[pid] = (same, parts)
+        for fs in featuresets:
+            exe, caps = h[fs]
+            real = engine.run_real(exe, allp)
+            for pid, en, mode, p in allp:
+                total += 1
+                r = real.get(pid)
+                same, parts = model[pid]
+                if r is None or r['panic'] is not None:
+                    mism.append((label, fs, en, mode, p, {'panic'}, r['raw'][:300] if r else 'no output', None)); continue
+                ra = real_attempts(r)
+                tags = set()
+                if not same:
+                    tags.add('opt-differs-from-ref')
+                if ra != parts:
+                    tags.add('trace')
+                # direct judgement of the property on the real trace
+                for st, reads in ra:
+                    nreads += len(reads)
+                    offs = [o for o, sz in reads]
+                    if any(b < a for a, b in zip(offs, offs[1:])):
+                        tags.add('real-nonmonotone')
+                    if reads:
+                        examined = max(min(o + sz, len(p)) for o, sz in reads) - st
+                        examined = max(examined, 0)
+                        if len(reads) > 3 * examined + 4:
+                            tags.add('real-superlinear')
+                        maxratio = max(maxratio, len(reads) / (examined + 1))
+                    if reads and reads[0][0] != st:
+                        tags.add('real-restart-not-at-item-end')
+                if tags:
+                    mism.append((label, fs, en, mode, p, tags, r['raw'][:600], parts))
+    res.count('k3_traced_runs', total)
+    res.count('k3_reads_observed', nreads)
+    res.cov['k3_max_reads_per_examined_byte_plus_1'] = round(maxratio, 3)
+    return mism
+
+
+def split_points(c, p):
+    ks = list(range(len(p) + 1))
+    if c.utf8:
+        ks = [k for k in ks if probes.is_utf8(p[:k])]
+    return ks
+
+
+def run_k2_partial(res, sets, featuresets, tier, drv=None):
+    """C07: the real partial lexer on every prefix S[..k] against (a) the real one-shot lexer on S
+    (the property's own oracle) and (b) the model's partial run (correspondence)."""
+    drv = drv or build.extraction_build()
+    rng = random.Random(seed() + 7)
+    viol = []; total = 0; prefixes_with_items = 0; nones_mid = 0
+    maxlen = 16 if tier == 'quick' else 28
+    per_def = 60 if tier == 'quick' else 400
+    for label, h, enums in sets:
+        exe0, caps0 = h[featuresets[0]]
+        runs = []; jobs = []; meta = []
+        for en in sorted(caps0):
+            c = caps0[en]
+            if not usable(c) or None in engine.behaviour_codes(c):
+                continue
+            ps = [p for p in make_probes(c, rng, tier) if 0 < len(p) <= maxlen]
+            rng.shuffle(ps)
+            ps = ps[:per_def]
+            lines = engine.problem_header(c, with_dfa=False)
+            for i, p in enumerate(ps):
+                fid = '%s.%d.F' % (en, i)
+                runs.append((fid, en, 0, p))
+                for k in split_points(c, p):
+                    pid = '%s.%d.%d' % (en, i, k)
+                    runs.append((pid, en, 1, p[:k]))
+                    lines.append('P %s 1 %d %s' % (pid, k, ' '.join(map(str, p[:k]))))
+                    meta.append((en, i, k, p, pid, fid))
+            jobs.append(lines)
+        model = engine.parse_model_output(engine.run_modeldrv(drv, jobs))
+        for fs in featuresets:
+            exe, caps = h[fs]
+            real = engine.run_real(exe, runs)
+            for en, i, k, p, pid, fid in meta:
+                total += 1
+                c = caps0[en]
+                rp, rf = real.get(pid), real.get(fid)
+                if rp is None or rf is None or rp['panic'] is not None or rf['panic'] is not None:
+                    viol.append((label, fs, en, p, k, 'panic', (rp or {}).get('raw', '')[:300], True)); continue
+                pi, fi = rp['items'], rf['items']
+                if pi:
+                    prefixes_with_items += 1
+                if k < len(p):
+                    nones_mid += 1
+                # (a) property's own oracle: committed items are a leading run of the one-shot items
+                if pi != fi[:len(pi)]:
+                    viol.append((label, fs, en, p, k, 'partial lexer committed %r but one-shot lexing yields %r' % (pi, fi[:len(pi) + 1]), rp['raw'][:300], True)); continue
+                fin = rp['finals'][0] if rp['finals'] else None
+                if fin is None or fin[0] != fin[1]:
+                    viol.append((label, fs, en, p, k, 'span at None is not empty: %r' % (fin,), rp['raw'][:300], True)); continue
+                nxt = fi[len(pi)][2] if len(fi) > len(pi) else len(p)
+                prev = pi[-1][3] if pi else 0
+                if not (prev <= fin[0] <= nxt):
+                    viol.append((label, fs, en, p, k, 'None reported at %d, outside %d..%d' % (fin[0], prev, nxt), rp['raw'][:300], True)); continue
+                # (b) correspondence with the model's partial run
+                (mi, mf), _ = model[pid]
+                d = engine.compare(c, rp, mi, mf)
+                if d:
+                    viol.append((label, fs, en, p, k, 'model: ' + d, rp['raw'][:300], False))
+    res.count('k2_partial_runs', total)
+    res.count('k2_partial_prefixes_with_committed_items', prefixes_with_items)
+    res.count('k2_partial_cuts_before_end', nones_mid)
+    return viol
